@@ -89,6 +89,11 @@ CHECKS = {
   text="Runtime oracle over the real filter functions: every code point (exhaustive), every string of length <=3 over the markup alphabet (exhaustive), random mixtures, and the same strings through compiled templates; outputs judged by independent reference decoders. Exhaustive enumeration of single code points is the natural bound for per-character escaping functions.",
   note="Trusts html.entities tables, urllib.parse.unquote_plus and CPython codecs as reference decoders; strings longer than 3 are sampled, not enumerated.",
   technique="runtime oracle with reference decoders over exhaustive + random inputs"),
+ "C20": dict(
+  category="exploration", design_ref="DESIGN.md §2 C20",
+  text="Planting with an independent line counter: unique messages in _(), gettext(), ngettext() calls are written into 16 kinds of Python-bearing constructs (expressions single/multi-line and with two calls, filter-call arguments, if/elif/for control lines, lines of <% %> and <%! %> blocks, def, block and page signatures, <%call expr>, <%ns:def> attribute expressions, def bodies) with LF/CRLF and non-ASCII messages in utf-8/latin-1/cp1251, decoy calls in plain text, <%text>, <%doc>, ## comments and %% lines, translator comments directly before a construct (must attach to exactly its own messages) and three lines before (must not); the expected multiset {(line, function, messages)} is compared with the tuples yielded by mako.ext.babelplugin.extract (bytes + encoding option) and with the Message objects of LinguaMakoExtractor.",
+  note="Trusted: the assembler's line counter; Babel's and Lingua's own Python extractors for plain Python. Not asserted: calls inside <%include file=> / filter= attributes of defs; gettext calls used as the exception class of a % except line.",
+  technique="planting with an independent line counter; extractor output compared as a multiset with the planted calls"),
 }
 def main():
     checks = []
